@@ -91,7 +91,7 @@ def gen_case(rng, actions, max_ops, stream):
              'filter': filt(), 'expires': dur(), 'notify': rng.randrange(c['nsinks']),
              'end': rng.choice([None, None] + list(range(c['nsinks']))), 'cons_ref': rng.random() < 0.4}
         ops.append(['sub', q])
-        if q['schema_ok'] and q['dialect_ok'] and q['filter'] is not None:
+        if q['schema_ok'] and (q['dialect_ok'] or c['async']) and q['filter'] is not None:
             e = q['expires']
             subs.append({'t0': now, 'dur': eff_maxd if e is None else min(e, eff_maxd), 'unsub': None})
 
@@ -222,7 +222,8 @@ def lit_case(case, actions):
             ops.append(f'Stop {coqlit(op[1])} {lit_outs(op[2])}')
     maxd = 'DEFAULT_MAX_SUBSCR_DURATION_TICKS' if case['maxd'] is None else f'({case["maxd"]})'
     maxerr = 'MAX_NOTIFY_ERRORS' if case['max_err'] is None else f'({case["max_err"]})'
-    return (f'(mkCfg {maxd} {maxerr} HOUSEKEEPING_GRACE_TICKS, {case["nsinks"]}%nat, [' + ';\n '.join(ops) + '])')
+    return (f'(mkCfg {maxd} {maxerr} HOUSEKEEPING_GRACE_TICKS {coqlit(not case["async"])}, {case["nsinks"]}%nat, ['
+            + ';\n '.join(ops) + '])')
 
 
 def z(v):
